@@ -547,7 +547,16 @@ func (t *tr) call(ins ssa.Instruction, cc *ssa.CallCommon, R string, heaps map[s
 	var argTypes []types.Type
 	name := ""
 	var callee *ssa.Function
+	dfn, dty := t.devirtualize(cc)
 	switch {
+	case dfn != nil:
+		// the receiver's concrete type is statically known: the call goes to that method (its contract or its body)
+		recv := t.v(cc.Value)
+		t.oblige("safe", t.nameAt("nil", ins.Pos(), pickCallFun), R, fmt.Sprintf("(not (= (ityp %s) 0))", recv), ins.Pos())
+		args = append(args, []string{"(iloc " + recv + ")"})
+		argTypes = append(argTypes, dty)
+		callee = dfn
+		name = dfn.String()
 	case cc.IsInvoke():
 		recv := t.v(cc.Value)
 		args = append(args, []string{recv})
